@@ -56,6 +56,9 @@ THEOREMS = [
     "SleapVerif.C19.artefacts_complete_same_folder",
     "SleapVerif.C19.train_total_same_folder",
     "SleapVerif.C19.no_key_after_interrupted_A",
+    "SleapVerif.C19.no_key_at_any_crash_point_low_memory",
+    "SleapVerif.C19.artefacts_complete_low_memory",
+    "SleapVerif.C19.train_total_low_memory",
     "SleapVerif.C19.no_key_at_any_crash_point_aborted",
     "SleapVerif.C19.config_artefacts_after_abort",
     "SleapVerif.C19.keyFixed_fresh_eq_repaired",
@@ -77,6 +80,9 @@ FWS = ["torch_dataset", "torch_dataset_np_chunks"]
 
 
 # ====================================================================== recorder (hooks)
+CHUNK_CLASSES = ("train_chunks", "val_chunks", "cwd_train_chunks", "cwd_val_chunks")
+
+
 class SimulatedDeath(BaseException):
     """raised by the recorder right after the k-th logged write of a run: nothing after that write runs in the
     trainer (the harness uses it only before `train()`'s try/finally, where it is indistinguishable on disk
@@ -121,7 +127,7 @@ class Recorder:
     def classify(self, p):
         """modelled path class of an absolute path, else None"""
         for cls, q in self.paths.items():
-            if cls in ("train_chunks", "val_chunks"):
+            if cls in CHUNK_CLASSES:
                 if p == q or p.startswith(q + os.sep):
                     return cls
             elif p == q:
@@ -133,7 +139,10 @@ class Recorder:
         ck = os.path.dirname(self.paths["initial_config"])
         relp = os.path.relpath(p, ck)
         top = relp.split(os.sep)[0]
-        return top in ("lightning_logs", "wandb")
+        if top in ("lightning_logs", "wandb"):
+            return True
+        # the run's private temp dir (wandb / tempfile scratch): scanned at every boundary and listed at the end
+        return any(os.path.basename(r) == "tmp" and (p == r or p.startswith(r + os.sep)) for r in self.roots[2:])
 
     def scan(self):
         hits = []
@@ -168,7 +177,7 @@ class Recorder:
         """Raw content of every modelled path right now (abstracted after the run)."""
         st = {}
         for cls, p in self.paths.items():
-            if cls in ("train_chunks", "val_chunks"):
+            if cls in CHUNK_CLASSES:
                 if os.path.isdir(p) and any(f.endswith(".npz") for f in os.listdir(p)):
                     st[cls] = "data"
                 continue
@@ -185,6 +194,9 @@ class Recorder:
         """kind ∈ W|D; p absolute path"""
         with self.lock:
             cls = self.classify(p)
+            if cls is None and self.ignorable(p):
+                self.boundary(inner=True, trigger=f"{kind}:{self.rel(p)}")
+                return
             name = cls if cls is not None else "other:" + self.rel(p)
             self.events.append((kind, name))
             self.boundary(inner=False, trigger=f"{kind}:{name}")
@@ -234,7 +246,7 @@ class Recorder:
             try:
                 with self.lock:
                     cls = self.classify(p)
-                    if cls in ("train_chunks", "val_chunks"):
+                    if cls in CHUNK_CLASSES:
                         if p.endswith(".npz") and cls not in self.chunk_open:
                             # the first chunk file of a directory: the write event is logged once the
                             # next boundary sees data there; logging it now keeps the order exact
@@ -454,6 +466,39 @@ class InjectedAbort(RuntimeError):
     """raised by the harness inside `Trainer.fit` to drive train()'s abort path"""
 
 
+class low_memory_host:
+    """Makes the trainer's in-memory-cache check fail: while active, the `psutil` the trainer module consults reports
+    1 byte of available memory (everything else of psutil is passed through; nothing in /repo is touched)."""
+
+    def __init__(self, on):
+        self.on = bool(on)
+
+    def __enter__(self):
+        if not self.on:
+            return
+        import types
+
+        import sleap_nn.training.model_trainer as mtm
+
+        self.mod, self.orig = mtm, mtm.psutil
+        real = mtm.psutil
+
+        class _Shim(types.SimpleNamespace):
+            def __getattr__(self, name):
+                return getattr(real, name)
+
+        def virtual_memory():
+            vm = real.virtual_memory()
+            return types.SimpleNamespace(**{**vm._asdict(), "available": 1})
+
+        mtm.psutil = _Shim(virtual_memory=virtual_memory)
+
+    def __exit__(self, *a):
+        if self.on:
+            self.mod.psutil = self.orig
+        return False
+
+
 class abort_injection:
     """`abort = {"epoch": j, "kind": "exception" | "interrupt"}`: at the start of training epoch j (after j complete
     epochs incl. validation and checkpointing) the LightningModule hook raises — an exception, or the
@@ -565,7 +610,7 @@ def initial_vs_raw(raw, got):
 
 
 ORDER = ["initial_config", "training_config", "chunks_config", "best_ckpt", "last_ckpt", "train_chunks", "val_chunks",
-         "best_ckpt_v1", "last_ckpt_v1"]
+         "best_ckpt_v1", "last_ckpt_v1", "cwd_train_chunks", "cwd_val_chunks"]
 
 
 def run_history(case):
@@ -621,6 +666,9 @@ def run_impl(case, scratch=None, ckpt_name="ckpt", carried=None, carried_mode=No
             "last_ckpt_v1": os.path.join(ckpt_dir, "last-v1.ckpt"),
             "train_chunks": os.path.join(chunks_base, "train_chunks"),
             "val_chunks": os.path.join(chunks_base, "val_chunks"),
+            # the low-memory fallback writes its chunks to the working directory
+            "cwd_train_chunks": os.path.join(cwd, "train_chunks"),
+            "cwd_val_chunks": os.path.join(cwd, "val_chunks"),
         }
         run["labels"] = labels_for(case, run)
         cfg = (structured_config if case["structured"] else plain_config)(case, run)
@@ -653,13 +701,19 @@ def run_impl(case, scratch=None, ckpt_name="ckpt", carried=None, carried_mode=No
                 fit_snapshot["cfg"] = json.loads(json.dumps(OmegaConf.to_container(mt.config, resolve=True)))
             return orig_fit(self_, *a, **k)
 
-        REC.start([os.path.join(runroot, "out"), cwd], paths)
+        # the run gets its own temp dir (scanned like the output dirs; nothing of the run may be left in it)
+        tmpd = os.path.join(runroot, "tmp")
+        os.makedirs(tmpd, exist_ok=True)
+        saved_tmp = (tempfile.tempdir, os.environ.get("TMPDIR"))
+        tempfile.tempdir = tmpd
+        os.environ["TMPDIR"] = tmpd
+        REC.start([os.path.join(runroot, "out"), cwd, tmpd], paths)
         REC.crash_after = crash_at
         L.Trainer.fit = fit_spy
         try:
             try:
                 mt = ModelTrainer(cfg)
-                with abort_injection(case.get("abort")):
+                with abort_injection(case.get("abort")), low_memory_host(case.get("low_mem")):
                     mt.train()
             except SimulatedDeath as e:
                 exc = {"class": "SimulatedDeath", "msg": str(e), "where": []}
@@ -675,6 +729,11 @@ def run_impl(case, scratch=None, ckpt_name="ckpt", carried=None, carried_mode=No
                     REC.states.append(None)
             finally:
                 L.Trainer.fit = orig_fit
+                tempfile.tempdir = saved_tmp[0]
+                if saved_tmp[1] is None:
+                    os.environ.pop("TMPDIR", None)
+                else:
+                    os.environ["TMPDIR"] = saved_tmp[1]
             REC.boundary(inner=False, trigger="exit")
             final_state = REC.observe()
         finally:
@@ -718,7 +777,7 @@ def run_impl(case, scratch=None, ckpt_name="ckpt", carried=None, carried_mode=No
                 # event's own path as the next full observation shows it
                 st = dict(filled[-1])
                 if kind == "W" and not name.startswith("other:"):
-                    if name in ("train_chunks", "val_chunks"):
+                    if name in CHUNK_CLASSES:
                         st[name] = "data"
                     else:
                         nxt = next((s for s in raw[i + 2:] if s is not None), final_state)
@@ -872,7 +931,11 @@ def oracle(rec):
         has = bool(f["ckpts_of_this_run"])
         if case["ckpt"] != has:
             bad.append(("artefact", f"save_ckpt={case['ckpt']} but checkpoints of this run: {f['ckpts_of_this_run']}"))
-    if case["fw"] == "torch_dataset_np_chunks" and case["delete"] and f["chunk_files"]:
+    # chunk files anywhere under the output dirs, the working directory or the run's temp dir; a run that asked for the
+    # in-memory framework may still have produced chunks (low-memory fallback), so the framework is not consulted
+    if case["delete"] and f["chunk_files"] and not case.get("same_folder"):
+        bad.append(("artefact", f"chunk deletion requested but chunk files remain: {f['chunk_files'][:3]}"))
+    elif case["delete"] and case["fw"] == "torch_dataset_np_chunks" and f["chunk_files"]:
         bad.append(("artefact", f"chunk deletion requested but chunk files remain: {f['chunk_files'][:3]}"))
     return bad
 
@@ -976,6 +1039,9 @@ def check_case(chk: Check, case, rec=None):
             lines = [l3("traces", "repaired"), l3("fss", "repaired"), l3("traces", "asis"), l3("fss", "asis")]
         else:   # run A died at its crash point k
             lines = [l3("tracex", "repaired"), l3("fsx", "repaired"), l3("tracex", "asis"), l3("fsx", "asis")]
+    elif case.get("low_mem"):
+        lines = [flags_line("tracel", "repaired", case, rounds), flags_line("fsl", "repaired", case, rounds),
+                 flags_line("trace", "asis", case, rounds), flags_line("fs", "asis", case, rounds)]
     elif case.get("abort"):
         lines = [flags_line("tracea", "repaired", case, rounds), flags_line("fsa", "repaired", case, rounds),
                  flags_line("tracea", "asis", case, rounds), flags_line("fsa", "asis", case, rounds)]
@@ -994,7 +1060,7 @@ def check_case(chk: Check, case, rec=None):
            case["sep_chunks"], case["epochs"], bool(case.get("reuse")), bool(case.get("same_folder")),
            json.dumps(case.get("run1"), sort_keys=True) if case.get("same_folder") else None,
            case.get("save_last", True), json.dumps(case.get("abort")), case.get("crash_at"),
-           bool(case.get("auto_prep")), bool(case.get("early_stop")))
+           bool(case.get("auto_prep")), bool(case.get("early_stop")), bool(case.get("low_mem")))
     chk.case(key, {"case": case, "impl_trace": rec["trace"], "crash_points_scanned": len(rec["boundaries"]),
                    "wall_s": rec["wall"]},
              tags=[f"model={case['model']}", f"fw={case['fw']}", f"wandb={case['wandb']}", f"ckpt={case['ckpt']}",
@@ -1005,6 +1071,7 @@ def check_case(chk: Check, case, rec=None):
                    "rounds=" + ("".join("T" if r else "F" for r in rounds) or "-") if case["ckpt"] else "rounds=n/a(ckpt off)",
                    f"abort={case['abort']['kind']}@epoch{case['abort']['epoch']}" if case.get("abort") else "abort=no",
                    f"killed_after_write={case['crash_at']}" if case.get("crash_at") else "killed=no",
+                   f"low_memory_fallback={bool(case.get('low_mem'))}",
                    f"auto_prep(scale/crop None)={bool(case.get('auto_prep'))}", f"early_stopping={bool(case.get('early_stop'))}"]
              + ([f"A_left_ckpt={rec.get('a_left_ckpt')}", f"A_killed={case['run1'].get('crash_at') is not None}"]
                 if case.get("same_folder") else []))
@@ -1134,6 +1201,12 @@ def main(chk: Check):
                 cases.append(mk_abort(rng, kind, epoch, **opt()))
         for _ in range(16):                                                          # A killed, then B in its folder
             cases.append(mk_killed_A(rng))
+        # low-memory host: the in-memory cache check fails -> the trainer falls back to chunks in the working directory
+        for m, w, c, s_, d in itertools.product(MODELS, [0, 1], [0, 1], [0, 1], [0, 1]):
+            cases.append(mk(m, "torch_dataset", w, c, s_, d, sep=rng.random() < 0.7, seed=rng.randrange(2**31),
+                            low_mem=True, **opt()))
+        for _ in range(8):      # chunk framework requested: the memory check is not consulted
+            cases.append(rand_case(rng, fw="torch_dataset_np_chunks", low_mem=True, **opt()))
     else:
         ms = MODELS[:]
         rng.shuffle(ms)
@@ -1165,6 +1238,12 @@ def main(chk: Check):
         cases.append(mk_abort(rng, "interrupt", 0, fw="torch_dataset_np_chunks", delete=True))
         # run A killed at a write boundary, then run B in the same folder
         cases.append(mk_killed_A(rng))
+        # low-memory host (psutil reports 1 byte available): every model type, chunk deletion requested and not
+        for m in MODELS:
+            for d in (1, 0):
+                cases.append(mk(m, "torch_dataset", rng.random() < 0.5, rng.random() < 0.5, rng.random() < 0.5, d,
+                                sep=rng.random() < 0.7, seed=rng.randrange(2**31), low_mem=True, **opt()))
+        cases.append(rand_case(rng, fw="torch_dataset_np_chunks", low_mem=True))   # check not consulted
     verdicts = {}
     for i, case in enumerate(cases):
         rec, verdict = check_case(chk, case)
@@ -1244,10 +1323,11 @@ if __name__ == "__main__":
              "learning rates that make some epochs not improve. Run shapes: fresh; two-run history `reuse` (run 2 has "
              "use_existing_chunks=True on run 1's chunk dir); two-run history `same_folder` (run B, another configuration, in run "
              "A's folder; A completed, or A killed right after one of its pre-fit writes); aborted inside fit (exception / "
-             "Ctrl-C at the start of epoch 0, 1 or 2). quick: 2 former-finding witnesses + 4 covering + 1 random fresh, 3 reuse + "
+             "Ctrl-C at the start of epoch 0, 1 or 2); fresh run on a low-memory host (the trainer module's psutil reports 1 byte "
+             "available -> fallback to chunks in the working directory; 4 model types x deletion on/off). quick: 2 former-finding witnesses + 4 covering + 1 random fresh, 3 reuse + "
              "3 same-folder + 1 killed-A histories, 2 aborted runs, the F-C19c witness history and 1-4 multi-epoch runs until one "
-             "has a non-improved epoch (26-29 trainings). thorough: all 128 fresh grid points (save_last etc. random), 64 reuse, "
-             "128 same-folder, 16 killed-A histories, 18 aborted, 8+ multi-epoch. distinct = distinct case tuple.",
+             "has a non-improved epoch plus 9 low-memory runs (35-38 trainings). thorough: all 128 fresh grid points (save_last etc. random), 64 reuse, "
+             "128 same-folder, 16 killed-A histories, 18 aborted, 72 low-memory, 8+ multi-epoch. distinct = distinct case tuple.",
         assumptions=["single process, rank 0 (get_dist_rank() is None); num_workers = 0",
                      "model_ckpt.save_top_k is pinned to 1 (save_last is a flag); with save_top_k >= 2 a fresh run writes "
                      "best-v1.ckpt itself, with 0 no best.ckpt — not modelled, never run",
@@ -1257,7 +1337,7 @@ if __name__ == "__main__":
                      "litdata framework is outside the property's quantifier; UNet backbone only",
                      "the key is present in the supplied config in every run (api_key=None / absent never run); "
                      "save_ckpt_path is always given (None -> '.' never run); resume_ckpt_path, prv_runid, profiler, "
-                     "trainer_strategy, rank != 0, the check_memory fall-back to ./train_chunks: never run",
+                     "trainer_strategy, rank != 0: never run",
                      "a same-folder history has two runs; use_existing_chunks in the same folder is not run"],
     )
     run_check(chk, main, replay)
